@@ -34,7 +34,7 @@ def run(res, tier, seed, replay):
         if "enc" not in r:
             continue
         res.count([ss.case_key(r["case"]), r["stream"], "enc"], r["enc"].get("n_calls", 0) >= 4)
-        if not enctie.ok(r, ("calls", "req_true")):
+        if not enctie.ok(r, ("calls", "fifo", "req_true")):
             res.tie_break(f"encoder/cache correspondence no longer checks in {r['stream']}: the provider-call sequence of the "
                           f"implementation differs from the model's (theorems C09_model_*), or an encode request was made for a "
                           f"variable that is not assigned true: {r['enc']}", enctie.replay(r))
